@@ -1,6 +1,8 @@
 package world
 
 import (
+	"strings"
+
 	"verif.local/simrt"
 )
 
@@ -81,7 +83,12 @@ func (g *genState) paramType() int {
 	return g.concrete()
 }
 
-func (g *genState) name() string { return Names[g.r.Intn(4)] }
+func (g *genState) name() string {
+	if g.r.Chance(1, 12) {
+		return Names[6] // a name whose upper-case form is not ASCII
+	}
+	return Names[g.r.Intn(4)]
+}
 
 func (g *genState) sub() string {
 	if g.cfg.Subs && g.r.Chance(1, 3) {
@@ -206,7 +213,7 @@ func GenWorld(r *simrt.RNG, cfg GenCfg) World {
 		if cfg.Names && r.Chance(1, 2) {
 			a.Kind = ArgNamed
 			a.Label.Name = g.name()
-			a.Spell = randomCase(r, a.Label.Name)
+			a.Spell = RandomCase(r, a.Label.Name)
 		} else {
 			a.Kind = ArgTyped
 		}
@@ -245,14 +252,15 @@ func GenWorld(r *simrt.RNG, cfg GenCfg) World {
 	return w
 }
 
-func randomCase(r *simrt.RNG, n string) string {
-	b := []byte(n)
-	for i := range b {
-		if b[i] >= 'a' && b[i] <= 'z' && r.Chance(1, 3) {
-			b[i] -= 32
+// RandomCase upper-cases a random subset of the letters of n.
+func RandomCase(r *simrt.RNG, n string) string {
+	rs := []rune(n)
+	for i := range rs {
+		if r.Chance(1, 3) {
+			rs[i] = []rune(strings.ToUpper(string(rs[i])))[0]
 		}
 	}
-	return string(b)
+	return string(rs)
 }
 
 // ShapeHash is a structural hash of a world (labels, forms, options, ops).
@@ -376,7 +384,7 @@ func GenPlanned(r *simrt.RNG, cfg GenCfg) World {
 		}
 		if l.Name != "" {
 			a.Kind = ArgNamed
-			a.Spell = randomCase(r, l.Name)
+			a.Spell = RandomCase(r, l.Name)
 		} else {
 			a.Kind = ArgTyped
 		}
@@ -513,7 +521,7 @@ func GenExact(r *simrt.RNG, cfg GenCfg) World {
 		a := ArgSpec{Label: l, Kind: ArgTyped}
 		if l.Name != "" {
 			a.Kind = ArgNamed
-			a.Spell = randomCase(r, l.Name)
+			a.Spell = RandomCase(r, l.Name)
 		}
 		w.Args = append(w.Args, a)
 		callArgs = append(callArgs, len(w.Args)-1)
